@@ -188,6 +188,7 @@ type c03Case struct {
 	Inserts []int    // indices (into the golden's locations) before whose leading comment block a detached comment is inserted
 	Splits  []int    // indices (into the golden's tokens) of one-line block comments whose closing */ is moved to a new line
 	Swap    []int    // empty, or {i, j}: golden location indices of two adjacent sibling declarations to exchange (see c03Swappable)
+	CRLF    bool     // every line of the perturbed source ends in "\r\n"
 }
 
 // c03Apply rebuilds the source with the replacement whitespace and the inserted detached comments, and returns the
@@ -236,7 +237,8 @@ func c03Apply(g *c03Golden, c c03Case) (string, []int, map[int]string, error) {
 			split[ti] = true
 		}
 	}
-	var sb strings.Builder
+	var sb0 strings.Builder
+	sb := &crlfWriter{sb: &sb0, on: c.CRLF}
 	newOff := make([]int, len(g.toks))
 	// the k-th whitespace token keeps its replacement wherever it is emitted
 	spaceIdx := make([]int, len(g.toks))
@@ -297,6 +299,21 @@ func c03Apply(g *c03Golden, c c03Case) (string, []int, map[int]string, error) {
 	}
 	return sb.String(), newOff, added, nil
 }
+
+// crlfWriter writes text with every "\n" spelled "\r\n" when on.
+type crlfWriter struct {
+	sb *strings.Builder
+	on bool
+}
+
+func (w *crlfWriter) WriteString(s string) {
+	if w.on {
+		s = strings.ReplaceAll(s, "\n", "\r\n")
+	}
+	w.sb.WriteString(s)
+}
+func (w *crlfWriter) Len() int       { return w.sb.Len() }
+func (w *crlfWriter) String() string { return w.sb.String() }
 
 // c03LeadStart walks back from token index first over the comment block attached to it (comments and whitespace
 // without a blank line) and returns the index of the block's first token (first itself if there is none).
@@ -597,6 +614,23 @@ func c03Check(c c03Case, r *ev.Rec) error {
 		return fmt.Errorf("the re-spaced golden source no longer compiles: %v", cerr)
 	}
 	got := fdProto(res[0]).GetSourceCodeInfo().GetLocation()
+	if c.CRLF {
+		// compared by value: where the carriage returns of the line ends go inside a comment's text is not pinned by the
+		// golden output (it has none), that every line end of the comment is still there is
+		strip := func(p *string) *string {
+			if p == nil {
+				return nil
+			}
+			v := strings.ReplaceAll(*p, "\r", "")
+			return &v
+		}
+		for _, l := range got {
+			l.LeadingComments, l.TrailingComments = strip(l.LeadingComments), strip(l.TrailingComments)
+			for k := range l.LeadingDetachedComments {
+				l.LeadingDetachedComments[k] = *strip(&l.LeadingDetachedComments[k])
+			}
+		}
+	}
 	if len(got) != len(want) {
 		return fmt.Errorf("%s: %d locations, protoc's output (transformed) has %d", c.File, len(got), len(want))
 	}
@@ -618,8 +652,11 @@ func c03Check(c c03Case, r *ev.Rec) error {
 			si++
 		}
 	}
-	r.Case(ev.JSONFP(c), changed >= 3 && strings.Contains(strings.Join(c.Spaces, ""), "\t") || nAttached+nDropped > 0 || swapped, "file="+c.File, fmt.Sprintf("detached-inserted=%d", min(len(added), 5)))
+	r.Case(ev.JSONFP(c), changed >= 3 && strings.Contains(strings.Join(c.Spaces, ""), "\t") || nAttached+nDropped > 0 || swapped || c.CRLF, "file="+c.File, fmt.Sprintf("detached-inserted=%d", min(len(added), 5)))
 	r.LabelN("locations-compared", len(want))
+	if c.CRLF {
+		r.Label("crlf-line-ends")
+	}
 	if swapped {
 		r.Label("declarations-swapped")
 	}
@@ -686,6 +723,7 @@ func c03Gen(t *rapid.T) c03Case {
 	if sws := c03Swappable(g); len(sws) > 0 && gen.Pct(t, 40, "swap") {
 		c.Swap = gen.Pick(t, sws, "swap-pair")
 	}
+	c.CRLF = gen.Pct(t, 25, "crlf")
 	for k := gen.Pick(t, []int{0, 0, 1, 3}, "nsplits"); k > 0 && len(splittable) > 0; k-- {
 		c.Splits = append(c.Splits, gen.Pick(t, splittable, "split"))
 	}
@@ -702,6 +740,10 @@ func TestC03_Calibration(t *testing.T) {
 		if err := c03Check(c03Case{File: f}, r); err != nil {
 			r.Fail(t, f, "%v", err)
 		}
+		// the same with CRLF line ends: same lines, same columns, the same comment text apart from the carriage returns
+		if err := c03Check(c03Case{File: f, CRLF: true}, r); err != nil {
+			r.Fail(t, f+"/crlf", "%v", err)
+		}
 	}
 }
 
@@ -714,7 +756,7 @@ func TestC03_Respaced(t *testing.T) {
 // TestC03_SplitEach: every one-line block comment of the golden sources, split one at a time.
 func TestC03_SplitEach(t *testing.T) {
 	ev.RunEnum(t, ev.Spec[c03Case]{ID: "C03", Name: "SplitEach",
-		Rule:  "for EVERY one-line block comment of the three golden sources, one at a time: its closing */ is moved to a line of its own, which makes it a multi-line comment and moves every later token down one line, while what precedes its start and what follows its end stay the same; oracle: protoc's golden output with the comment's text gaining that line end where protoc attached it (leading, trailing or detached), a comment protoc attached to nothing (it starts on the previous token's line and the next token follows its end on the same line) still attached to nothing, and all spans recomputed; non-trivial = all",
+		Rule:  "for EVERY one-line block comment of the three golden sources, one at a time, with LF and with CRLF line ends (CRLF: comments compared with their carriage returns removed, everything else unchanged): its closing */ is moved to a line of its own, which makes it a multi-line comment and moves every later token down one line, while what precedes its start and what follows its end stay the same; oracle: protoc's golden output with the comment's text gaining that line end where protoc attached it (leading, trailing or detached), a comment protoc attached to nothing (it starts on the previous token's line and the next token follows its end on the same line) still attached to nothing, and all spans recomputed; non-trivial = all",
 		Check: c03Check}, true, func(yield func(c03Case) bool) {
 		data, err := c03Load()
 		if err != nil {
@@ -723,7 +765,7 @@ func TestC03_SplitEach(t *testing.T) {
 		for _, f := range c03Files {
 			for ti, tk := range data[f].toks {
 				if c03Splittable(tk) {
-					if !yield(c03Case{File: f, Splits: []int{ti}}) {
+					if !yield(c03Case{File: f, Splits: []int{ti}}) || !yield(c03Case{File: f, Splits: []int{ti}, CRLF: true}) {
 						return
 					}
 				}
